@@ -98,7 +98,7 @@ def translate(line, out):
         if not created:
             if len(toks) >= 2 and toks[1] == "NOENT":
                 continue
-            if name in ("SUB", "R", "net", "adv", "mark", "clr", "rel", "fault", "t", "r", "tr", "th", "sent", "cfg", "sm"):
+            if name in ("SUB", "R", "net", "adv", "mark", "clr", "rel", "fault", "t", "r", "tr", "th", "sent", "cfg", "sm", "delR", "pm"):
                 continue
             raise Untranslatable("op on a writer that was not created: " + o)
         if name in ("P", "T", "PUB", "SUB", "W", "R"):
